@@ -145,7 +145,7 @@ func runPhase(t *testing.T, sc *Scenario, tasks [][]Call, faults, trivial bool, 
 				return
 			}
 			impls = tp.Impls
-			h, cl, whc, err := tp.New(typedHandler(tp.Impls), typedNewError, typedFill, tr, SimErrorHandler, typedMiddleware, secondMiddleware)
+			h, cl, whc, err := tp.New(typedHandler(tp.Impls), typedNewError, typedFill, typedSecSaw, tr, SimErrorHandler, typedMiddleware, secondMiddleware)
 			if err != nil {
 				res.trouble = err.Error()
 				return
